@@ -56,9 +56,9 @@ InvLogic == \A m \in Ms : LET u == x % m v == y % m n == NB(m) IN
             /\ NotB(m, u) = SumP((0..(n - 1)) \ BitsOf(u, n))
             /\ Neg(m, u) = Rg(m, 0 - Sg(m, u))
             /\ NotP(c) = (IF c = 1 THEN 0 ELSE 1)
-            /\ BAnd(c, y % 2) = (IF c = 1 /\ (y % 2) = 1 THEN 1 ELSE 0)
-            /\ BOr(c, y % 2) = (IF c = 1 \/ (y % 2) = 1 THEN 1 ELSE 0)
-            /\ BXor(c, y % 2) = (IF c = (y % 2) THEN 0 ELSE 1)
+            /\ B1(0, c, y % 2) = (IF c = 1 /\ (y % 2) = 1 THEN 1 ELSE 0) /\ B1(0, c, y % 2) = BAnd(c, y % 2)
+            /\ B1(1, c, y % 2) = (IF c = 1 \/ (y % 2) = 1 THEN 1 ELSE 0) /\ B1(1, c, y % 2) = BOr(c, y % 2)
+            /\ B1(2, c, y % 2) = (IF c = (y % 2) THEN 0 ELSE 1) /\ B1(2, c, y % 2) = BXor(c, y % 2)
 (* shift amounts: every 32-bit value (the low half of y), in particular amounts above the register width *)
 InvShift == \A m \in Ms : LET u == x % m n == Lo(y) k == IF n > NB(m) THEN NB(m) ELSE n IN
             /\ Shl(m, u, n) = (u * (2^k)) % m
